@@ -522,6 +522,9 @@ class ExecBase:
     # ---------------------------------------------------------------------------------------------
     def field_type(self, definer: type, attr: str) -> Ty:
         key = (definer.__name__, attr)
+        over = getattr(getattr(self, "contract", None), "field_types", None)
+        if over and key in over:
+            return over[key]        # per-contract view of a field (e.g. the value type of the engine's tables in one domain)
         if key in FIELD_TYPES:
             return FIELD_TYPES[key]
         # derive from __init__ annotations
